@@ -221,7 +221,18 @@ func checkPipelines(c Case) error {
 		p.g.Reset(vb, [64]color.RGBA(c.Palette))
 	}
 	mg.Reset(vb, [64]color.RGBA(c.Palette))
+	marks := make([]int, len(ps))
 	for i, a := range c.Actions {
+		if a.K == "reset" {
+			// the same objects are reused for another graphic
+			mg.Reset(vb, [64]color.RGBA(c.Palette))
+			for k, p := range ps {
+				p.g.Reset(vb, [64]color.RGBA(c.Palette))
+				if p.rr != nil {
+					marks[k] = len(p.rr.Calls)
+				}
+			}
+		}
 		wantErr := apply(&mg, a)
 		for _, p := range ps {
 			err := apply(&p.g, a)
@@ -246,7 +257,7 @@ func checkPipelines(c Case) error {
 	if !bytes.Equal(b2, b4) {
 		return harness.Violatef("c07/logger-changes-bytes", "encoding through DestinationLogger gives different bytes")
 	}
-	if d := rast.DiffCalls(ps[2].rr.Calls, ps[0].rr.Calls); d != "" {
+	if d := rast.DiffCalls(ps[2].rr.Calls[marks[2]:], ps[0].rr.Calls[marks[0]:]); d != "" {
 		return harness.Violatef("c07/logger-changes-rendering", "rendering through DestinationLogger differs: %s", d)
 	}
 	// via bytes
@@ -257,7 +268,7 @@ func checkPipelines(c Case) error {
 	if err := decode.Decode(&z, append([]byte{}, b2...), decode.WithPalette([64]color.RGBA(c.Palette))); err != nil {
 		return harness.Violatef("c07/decode-error", "Decode: %v", err)
 	}
-	if d := compareLogs(rr.Calls, ps[0].rr.Calls); d != "" {
+	if d := compareLogs(rr.Calls, ps[0].rr.Calls[marks[0]:]); d != "" {
 		return harness.Violatef("c07/direct-vs-bytes", "rendering via Encoder+Decode differs from direct rendering: %s", d)
 	}
 	return nil
@@ -288,7 +299,12 @@ func genStopsSpec(t *rapid.T) []StopSpec {
 func grid(t *rapid.T, l string) ops.F32 { return ops.F32(gen.Grid(t, l, 30)) }
 
 func genAction(t *rapid.T) Action {
-	switch rapid.IntRange(0, 13).Draw(t, "action") {
+	switch rapid.IntRange(0, 14).Draw(t, "action") {
+	case 14:
+		if rapid.IntRange(0, 3).Draw(t, "reallyreset") == 0 {
+			return Action{K: "reset"}
+		}
+		return Action{K: "read"}
 	case 0:
 		return Action{K: "csel", Sel: gen.Sel(t, "sel")}
 	case 1:
@@ -389,7 +405,10 @@ func TestPipelines(t *testing.T) {
 				if cs >= 10 && int(cs) < 10+len(a.Stops) {
 					labels["helper-error-path:CSEL-in-stop-range"] = true
 				}
-			case "csel", "nsel":
+			case "reset":
+				labels["reset-mid-sequence"] = true
+				model.Reset(ivg.DefaultViewBox, ivg.DefaultPalette)
+				sinceIncr = false
 			}
 			var mg generate.Generator
 			mg.SetDestination(model)
@@ -398,7 +417,7 @@ func TestPipelines(t *testing.T) {
 				// a plain selector write forgets earlier increments only for that selector; keep it simple
 			}
 		}
-		nt := labels["read-back-after-increment"] || labels["helper-after-increment"] || labels["selector-wraps"]
+		nt := labels["read-back-after-increment"] || labels["helper-after-increment"] || labels["selector-wraps"] || labels["reset-mid-sequence"]
 		var ls []string
 		for l := range labels {
 			ls = append(ls, l)
